@@ -17,7 +17,8 @@
      polygon_is_plaquette_partial   ... and find_all_plaquettes L' reports it, PROVIDED its coded winding
                             number is -1 (the third filter of walk_valid; that hypothesis is discharged in
                             Proofs/TruncateFacesWinding.v: polygon_winding, polygon_is_plaquette)
-     corner_detour_partial  local form of "every old plaquette enlarged by one side per truncated corner" *)
+     corner_detour_partial  local form of "every old plaquette enlarged by one side per truncated corner"
+                            (global form: Proofs/TruncateOldFaces.v, Proofs/TruncateOldValid.v) *)
 From Coq Require Import List ZArith Bool Arith Lia ZifyBool Permutation Sorted.
 From Koala Require Import Model.Lattice Model.Truncate Proofs.LatticeFacts Proofs.TruncateFacts
      Proofs.TruncateDegrees Proofs.TruncateFacesGeom Proofs.TruncateFacesRot.
@@ -431,9 +432,11 @@ Qed.
 (* In L a face walk that enters v along e_u leaves along e_{u+1}.  In L' the same dart of e_u enters corner u,
    continues along the polygon edge pe u (forwards) to corner u+1 and leaves along e_{u+1} in the same
    direction as before: exactly one new side at this corner.
-   PARTIAL: this is the local step only; the global statement (every old plaquette of L reappears in L' with one
-   more side per truncated corner it passes, same orientation and validity) additionally needs that the rotation
-   system is unchanged at the vertices that are not truncated, and the winding-number filter. *)
+   PARTIAL: this is the local step only; what is missing HERE for the global statement (every old plaquette of L
+   reappears in L' with one more side per truncated corner it passes, same orientation and validity) is that the
+   rotation system is unchanged at the vertices that are not truncated, the correspondence of whole orbits and
+   the validity filters; these are proved in Proofs/TruncateOldFaces.v (truncate_nd_spec, expand_orbit,
+   old_face_listed) and Proofs/TruncateOldValid.v (expand_valid, old_plaquette_enlarged). *)
 Theorem corner_detour_partial u b : u < d ->
   dhead L (eu u, b) = v ->
   let u1 := Nat.modulo (u + 1) d in
@@ -605,7 +608,8 @@ Proof.
   apply polygon_is_plaquette_partial; assumption.
 Qed.
 
-(* PARTIAL (see corner_detour_partial): one extra side at every truncated corner, local form *)
+(* PARTIAL (see corner_detour_partial): one extra side at every truncated corner, local form; the global statement
+   is truncate_old_plaquette_enlarged in Proofs/TruncateOldValid.v *)
 Theorem truncate_corner_detour_partial (L : lattice) (vs : option (list nat)) (v u : nat) (b : bool) :
   wf_lattice L = true -> no_self_loops L = true -> v < nV L -> is_truncated L vs v = true ->
   turns_cw L v = true -> u < length (sorted_adj L v) ->
